@@ -79,7 +79,7 @@ pub fn run(opt: &HashMap<String, String>) -> i32 {
 fn dispatch(name: &str, ctx: &Ctx, rep: &mut Report) -> bool {
     match name {
         "shape_sweep" => shape_sweep(rep, ctx.seed, ctx.big, &ctx.progress),
-        "wf" => sweep(ctx, rep, &check_wf),
+        "wf" => { sweep(ctx, rep, &check_wf); long_histories(ctx, rep); wrap_histories(ctx, rep); }
         "monotone" => { sweep(ctx, rep, &check_monotone); wrap_histories(ctx, rep); }
         "criterion" => sweep(ctx, rep, &check_replay),
         "greedy" => sweep(ctx, rep, &check_replay),
@@ -182,6 +182,12 @@ fn extra_cases(ctx: &Ctx) -> Vec<AlgoCase> {
             for algo in [1u8, 0, 2] { push(&mut rng, algo, 0, n, fam); }
             if n <= 258 { push(&mut rng, 2, 1, n, fam); push(&mut rng, 2, 2, n, fam); }
         }
+    }
+    // one nearest-neighbour chain through all points, longer than any fixed-size buffer one would
+    // pick for it (256, 512): every method that runs on the chain, through nnchain and linkage
+    for &n in (if ctx.big { &[258u64, 300, 515, 1030][..] } else { &[258u64, 300, 515][..] }) {
+        for method in 0..5u8 { push(&mut rng, 2, method, n, "decgap"); }
+        for method in 1..5u8 { if n <= 300 || method == 1 { push(&mut rng, 0, method, n, "decgap"); } }
     }
     // a hub matrix: the generic algorithm repairs a quadratic number of stale candidates on it
     for &n in (if ctx.big { &[100u64, 130, 300][..] } else { &[100u64, 130][..] }) {
@@ -481,6 +487,16 @@ fn separated_matrix(rng: &mut Rng, n: usize, kind: u64) -> Vec<f64> {
             for a in 0..n { for b in a + 1..n { v.push(if a % g == b % g { lo } else { hi } * us[k]); k += 1; } }
             v
         }
+        6 => {
+            // distinct signed values and exactly one zero (+0.0 or -0.0): "dissimilarities" need not be
+            // non-negative, and a zero is not the smallest possible entry then
+            let mut v: Vec<f64> = (0..len).map(|k| (k as f64 - len as f64 / 3.0 + 0.25) / len as f64).collect();
+            for i in (1..len).rev() { let j = rng.below(i as u64 + 1) as usize; v.swap(i, j); }
+            // the zero replaces the value nearest to it (keeps all gaps)
+            let z = (0..len).min_by(|&a, &b| v[a].abs().partial_cmp(&v[b].abs()).unwrap()).unwrap();
+            v[z] = if rng.below(2) == 0 { 0.0 } else { -0.0 };
+            v
+        }
         _ => matrix_f64(rng, n, "uniform", true),
     }
 }
@@ -519,12 +535,13 @@ fn agree(ctx: &Ctx, rep: &mut Report) {
         let n = if wide && i % 9 == 4 { rng.range(64, if ctx.big { 300 } else { 150 }) as usize }
                 else if wide && i % 9 == 7 { if i % 2 == 0 { boundary_size(&mut rng, 257) as usize } else { rng.range(130, if ctx.big { 400 } else { 280 }) as usize } }
                 else { rng.range(2, cap) as usize };
-        let kind = if i % 8 == 5 { if wide { 4 } else { 5 } } else { rng.below(4) };
+        let kind = if i % 8 == 5 { if wide { 4 } else { 5 } } else if i % 8 == 3 && !on_squares(method) { 6 } else { rng.below(4) };
         // long nearest-neighbour chains need enough points
         let n = if kind == 3 && wide { n.max(rng.range(66, if ctx.big { 260 } else { 140 }) as usize) } else { n };
         let n = if kind >= 4 { n.clamp(4, 60) } else { n };
         let mut v0 = separated_matrix(&mut rng, n, kind);
         if i % 3 == 1 && kind < 4 { rescale(&mut rng, &mut v0, wide); }
+        let rel_kind = kind == 4 || kind == 5;
         let bits = to_bits(&v0, wide);
         let base = AlgoCase { algo: 0, method, wide, n: n as u64, bits, family: "separated" };
         let v = vals_of(&base);
@@ -533,7 +550,7 @@ fn agree(ctx: &Ctx, rep: &mut Report) {
         let (reference, margin) = reference(n, &v, method);
         tick(&ctx.progress, &base.describe());
         // mixed magnitudes: certify by relative gaps, compare heights relatively
-        let rel = kind >= 4;
+        let rel = rel_kind;
         let rel_need = if wide { 1e-9 } else { 2e-3 };
         if rel { if !(relative_margin(n, &v, method) > rel_need) { skipped += 1; continue; } }
         else if !margins_ok(&reference, margin, need, method) { skipped += 1; continue; }
@@ -686,7 +703,7 @@ fn order_only(ctx: &Ctx, rep: &mut Report) {
     for c in cases {
         tick(&ctx.progress, &c.describe());
         let v = vals_of(&c);
-        for g in 0..8u8 {
+        for g in 0..9u8 {
             // table value -> g(value), in the case's width
             let mut keys: Vec<u64> = c.bits.clone(); keys.sort(); keys.dedup();
             let mut table: HashMap<u64, u64> = HashMap::new();
@@ -694,6 +711,18 @@ fn order_only(ctx: &Ctx, rep: &mut Report) {
                 // rank transform
                 let mut sorted: Vec<f64> = v.clone(); sorted.sort_by(|a, b| a.partial_cmp(b).unwrap()); sorted.dedup();
                 for (&b, &x) in c.bits.iter().zip(&v) { let r = sorted.iter().position(|&y| y == x).unwrap() as f64; table.insert(b, to_bits(&[r], c.wide)[0]); }
+            } else if g == 8 {
+                // two scales: the largest value far above sqrt(MAX / n), all the others a full exponent
+                // range below it and next to each other (an "exact" rescaling by the largest entry
+                // pushes them into the subnormals)
+                let mut sorted: Vec<f64> = v.clone(); sorted.sort_by(|a, b| a.partial_cmp(b).unwrap()); sorted.dedup();
+                let (lo, step, hi) = if c.wide { (1e-160, 1e-12, 1e160) } else { (1e-24, 1e-5, 1e20) };
+                let top = sorted.len() - 1;
+                for (&b, &x) in c.bits.iter().zip(&v) {
+                    let r = sorted.iter().position(|&y| y == x).unwrap();
+                    let gx = if r == top && top > 0 { hi } else { lo * (1.0 + r as f64 * step) };
+                    table.insert(b, to_bits(&[gx], c.wide)[0]);
+                }
             } else {
                 for (&b, &x) in c.bits.iter().zip(&v) { table.insert(b, to_bits(&[apply_g(x, g, c.wide)], c.wide)[0]); }
             }
@@ -705,7 +734,7 @@ fn order_only(ctx: &Ctx, rep: &mut Report) {
             if !ok { continue; }
             let gbits: Vec<u64> = c.bits.iter().map(|b| table[b]).collect();
             let t2 = table.clone();
-            order_case(rep, &c, &gbits, ["3x+1", "x^3", "exp(x/4)", "ln(x+2)", "rank", "x*2^-60|-30", "2^-55+x*2^-62|2^-25+x*2^-32", "x*2^40|20"][g as usize], &move |b| *t2.get(&b).unwrap_or(&u64::MAX));
+            order_case(rep, &c, &gbits, ["3x+1", "x^3", "exp(x/4)", "ln(x+2)", "rank", "x*2^-60|-30", "2^-55+x*2^-62|2^-25+x*2^-32", "x*2^40|20", "two-scale 1e-160..1e160|1e-24..1e20"][g as usize], &move |b| *t2.get(&b).unwrap_or(&u64::MAX));
         }
         if c.n == 4 { rep.sample(format!("{} under g in 3x+1, x^3, exp, ln, rank, tiny scale, tiny affine, big scale", c.describe())); }
     }
@@ -752,8 +781,10 @@ fn permute(ctx: &Ctx, rep: &mut Report) {
         let n = if wide && i % 9 == 4 { rng.range(64, if ctx.big { 300 } else { 150 }) as usize }
                 else if wide && (i % 9 == 7 || i % 9 == 1) { if i % 2 == 0 { boundary_size(&mut rng, 257).max(3) as usize } else { rng.range(130, if ctx.big { 400 } else { 280 }) as usize } }
                 else { rng.range(3, cap) as usize };
-        let kind = rng.below(4); let mut v0 = separated_matrix(&mut rng, n, kind);
-        if i % 3 == 1 { rescale(&mut rng, &mut v0, wide); }
+        let kind = if i % 8 == 3 && !on_squares(method) { 6 } else { rng.below(4) };
+        let n = if kind == 6 { n.clamp(4, 60) } else { n };
+        let mut v0 = separated_matrix(&mut rng, n, kind);
+        if i % 3 == 1 && kind != 6 { rescale(&mut rng, &mut v0, wide); }
         let bits = to_bits(&v0, wide);
         let probe = AlgoCase { algo: 0, method, wide, n: n as u64, bits: bits.clone(), family: "separated" };
         let v = vals_of(&probe);
@@ -1027,6 +1058,29 @@ fn cost(ctx: &Ctx, rep: &mut Report) {
 }
 
 // ------------------------------------------------------------------ C08
+/// What a call on reused objects must satisfy for the property being checked: C08 - equal to the
+/// same call on fresh objects; C12 - no panic (where the fresh call does not panic) and finite
+/// heights; C05 - no inversion; C01 / C19 - well formed. Anything else is not this property's business.
+fn reused_call_violates(ctx: &Ctx, c: &AlgoCase, warm: &Outcome, fresh: &Outcome) -> Option<String> {
+    match ctx.prop.as_str() {
+        "C12" => match (warm, fresh) {
+            (Outcome::Panic(k, m), Outcome::Ok { .. }) => Some(format!("panic class {} ({})", k, m)),
+            _ => check_safety(ctx, c, warm),
+        },
+        "C05" => check_monotone(ctx, c, warm),
+        "C01" | "C19" => check_wf(ctx, c, warm),
+        _ => {
+            let same = match (warm, fresh) {
+                (Outcome::Ok { steps: a, obs: oa, .. }, Outcome::Ok { steps: b, obs: ob, .. }) => a == b && oa == ob,
+                (Outcome::Panic(..), Outcome::Panic(..)) => true,
+                _ => false,
+            };
+            if same { None } else { Some(format!("differs from the same call on fresh objects: reused={} fresh={}",
+                join(&tokens(warm), " ").chars().take(160).collect::<String>(), join(&tokens(fresh), " ").chars().take(160).collect::<String>())) }
+        }
+    }
+}
+
 /// Long histories of the SAME entry point on one LinkageState / Dendrogram (what a caller that
 /// clusters many matrices in a loop does): anything that accumulates from call to call - counters,
 /// sizes, capacities - needs dozens of calls to show. Every call is compared with a fresh call.
@@ -1049,15 +1103,10 @@ fn long_histories(ctx: &Ctx, rep: &mut Report) {
                     let warm = if wide { run_reused::<f64>(&mut st64, &mut d64, algo, method, n, &bits) } else { run_reused::<f32>(&mut st32, &mut d32, algo, method, n, &bits) };
                     let fresh = run_fresh_w(wide, algo, method, n, &bits);
                     rep.evaluations += 1;
-                    let same = match (&warm, &fresh) {
-                        (Outcome::Ok { steps: a, obs: oa, .. }, Outcome::Ok { steps: b, obs: ob, .. }) => a == b && oa == ob,
-                        (Outcome::Panic(..), Outcome::Panic(..)) => true,
-                        _ => false,
-                    };
-                    if !same {
-                        rep.violation(format!("{} violated: call #{} of {} consecutive {}_with {} {} calls (n={}, new matrix each call) on one LinkageState/Dendrogram differs from the same call on fresh objects: reused={} fresh={}",
-                            ctx.prop, k + 1, rounds, ALGO_NAMES[algo as usize], METHOD_NAMES[method as usize], if wide { "f64" } else { "f32" }, n,
-                            join(&tokens(&warm), " ").chars().take(200).collect::<String>(), join(&tokens(&fresh), " ").chars().take(200).collect::<String>()));
+                    let cc = AlgoCase { algo, method, wide, n, bits: bits.clone(), family: "history" };
+                    if let Some(why) = reused_call_violates(ctx, &cc, &warm, &fresh) {
+                        rep.violation(format!("{} violated: call #{} of {} consecutive {}_with {} {} calls (n={}, new matrix each call) on one LinkageState/Dendrogram: {}",
+                            ctx.prop, k + 1, rounds, ALGO_NAMES[algo as usize], METHOD_NAMES[method as usize], if wide { "f64" } else { "f32" }, n, why));
                         break;
                     }
                 }
@@ -1096,15 +1145,10 @@ fn wrap_histories(ctx: &Ctx, rep: &mut Report) {
                     } else { (4u64, small_bits.clone(), small_fresh.clone()) };
                     let warm = if wide { run_reused_quiet::<f64>(&mut st64, &mut d64, algo, method, n, &bits) } else { run_reused_quiet::<f32>(&mut st32, &mut d32, algo, method, n, &bits) };
                     rep.evaluations += 1;
-                    let same = match (&warm, &fresh) {
-                        (Outcome::Ok { steps: a, obs: oa, .. }, Outcome::Ok { steps: b, obs: ob, .. }) => a == b && oa == ob,
-                        (Outcome::Panic(..), Outcome::Panic(..)) => true,
-                        _ => false,
-                    };
-                    if !same {
-                        rep.violation(format!("{} violated: call #{} (n={}) of a history of {} calls on one LinkageState/Dendrogram - {}_with {} {}, n=4 except n=60 at calls {:?} - differs from the same call on fresh objects: reused={} fresh={}",
-                            ctx.prop, call, n, total, ALGO_NAMES[algo as usize], METHOD_NAMES[method as usize], if wide { "f64" } else { "f32" }, bigs,
-                            join(&tokens(&warm), " ").chars().take(160).collect::<String>(), join(&tokens(&fresh), " ").chars().take(160).collect::<String>()));
+                    let cc = AlgoCase { algo, method, wide, n, bits: bits.clone(), family: "history" };
+                    if let Some(why) = reused_call_violates(ctx, &cc, &warm, &fresh) {
+                        rep.violation(format!("{} violated: call #{} (n={}) of a history of {} calls on one LinkageState/Dendrogram - {}_with {} {}, n=4 except n=60 at calls {:?}: {}",
+                            ctx.prop, call, n, total, ALGO_NAMES[algo as usize], METHOD_NAMES[method as usize], if wide { "f64" } else { "f32" }, bigs, why));
                         break;
                     }
                 }
@@ -1574,6 +1618,7 @@ pub fn capibig(opt: &HashMap<String, String>) -> i32 {
     fn lcg(s: &mut u64) -> u64 { *s = s.wrapping_mul(6364136223846793005).wrapping_add(1442695040888963407); *s }
     fn fnv(mut h: u64, v: u64) -> u64 { for k in 0..8 { h ^= (v >> (8 * k)) & 0xff; h = h.wrapping_mul(0x100000001b3); } h }
     for (si, &n) in [2048u64, 2049, 2311, 8194, 12288].iter().enumerate() { for mi in 0..7u8 { for wide in [true, false] {
+        if n > opt_u64(opt, "maxn", 100000) { continue; }
         // the two largest sizes (capacity-doubling bands of the step buffer): two fast methods only
         if n > 4000 && mi != 0 && mi != 2 { continue; }
         let len = (n * (n - 1) / 2) as usize;
